@@ -14,7 +14,7 @@ vd = tempfile.mkdtemp(prefix='mlmutv-')
 if os.path.exists('/verif/known-findings.txt'):
     import shutil; shutil.copy('/verif/known-findings.txt', vd)
 for prop in props:
-    r = subprocess.run(['/verif/bin/mlcheck', '-prop', prop, '-verif', vd, '-overlay', f'{file}={path}'], capture_output=True, text=True)
+    r = subprocess.run(['/verif/bin/mlcheck', '-prop', prop, '-verif', vd, '-overlay', f'{file}={path}'], capture_output=True, text=True, env=dict(os.environ))
     lines = [l for l in (r.stdout + r.stderr).splitlines() if l.strip().startswith(('construct:', 'CHECKER-ERROR', prop+' '))]
     print(f"[{prop}] exit={r.returncode}")
     for l in lines[:12]: print("   ", l.strip()[:220])
